@@ -265,6 +265,8 @@ def gen_milp(tier, seed):
 def gen_lat(tier, seed):
     th = tier == 'thorough'
     for tag, ktag, spec in S.c06_specs(tier, seed):
+        if not th and spec['fe'] == 'dro' and ktag not in ('k=1', 'k=-1'):
+            continue            # quick tier: the dro front end only with unit multipliers (C06 runs all of them)
         for solver in S.solvers_for(spec, th):
             yield {'sub': 'lat', 'tag': tag, 'k': ktag, 'solver': solver, 'spec': spec}
 
@@ -291,7 +293,7 @@ def bounds(tier):
                     'quad': '6 2x2 + 4 3x3 matrices (PD, rank-deficient, diagonal, zero row) and their negatives',
                     'multipliers': [1, 2.5, 0.5] if th else [1, 2.5], 'front_ends': ['ro', 'dro(subset)']},
             'lat': {'n': [2, 3] if th else [2], 'step': 0.25, 'fine_step': 1 / 64, 'fine_radius': 0.125,
-                    'specs': 'the C06 grammar'},
+                    'specs': 'the C06 grammar' + ('' if th else ' (dro front end: multipliers +-1 only)')},
             'milp': {'int_box': '4 values per integer variable, <= 3 integers (thorough: 3 integers x 2 binaries)',
                      'binary_bounds': ['none', '[0,1]', 'ub=0', 'lb=1', '[-1,3]'], 'layouts': 14 if th else 10,
                      'interfaces': ['def', 'ort', 'grb', 'eco(<=3 integer variables)']}}
